@@ -18,9 +18,8 @@ machine is `Model/HtmlTok.lean` part B and chunk-independence is an oracle of
 the harness), `Text/TagName/TagAttr/Token` (unescaping, NUL/newline
 conversion), `NextIsNotRawText`, dynamic `AllowCDATA` toggling, io.ErrNoProgress.
 
-Go loops become fuel recursion; `fuelOut` is raised if a loop ever runs out of
-fuel (the D-tie would show it as a mismatch; it never happens on generated
-inputs — sufficiency of the fuel is not proved).
+Go loops become fuel recursion; `fuelOut` would be raised if a loop ever ran out
+of fuel. `Proofs.C39.exact_fuel_never_out` proves that it never happens.
 -/
 namespace NetVerif.Model.HtmlTokExact
 
